@@ -126,6 +126,19 @@ def run(rep, tier, seed):
         scripts.append(free_only_session(rng, [c for c in confs if c[0].startswith("fat32")][i % 2]))
     for i in range(6 if tier == "quick" else 100):
         scripts.append(sessions.full_dir_session(rng, "root" if i % 3 else "chain"))
+    # volumes whose FAT has no spare entry behind the last cluster: filling them up makes the free-cluster scan reach the
+    # very end of the table; NotEnoughSpace must come exactly when nothing is free
+    for (bits, bpc, start) in ((32, 512, 66600), (16, 512, 4400), (12, 512, 300)):
+        ts = vlib.exact_fit_sectors(512, bpc, start, bits)
+        if ts is not None:
+            conf = ("fat%d-exactfit" % bits, ts * 512, "format 512 %d %d %d %s 2 - - -" % (ts, bpc, bits, "-" if bits == 32 else "32"))
+            if bits == 32:
+                # too large to fill byte by byte: the hint of the FS-info sector is put at / around the last cluster instead
+                for k in range(4 if tier == "quick" else 10):
+                    scripts.append(hint_session(rng, conf, k))
+            else:
+                for k in range(1 if tier == "quick" else 6):
+                    scripts.append(fill_cycle_session(rng, conf, 2))
     judged = sessions.run_judged(scripts, flags=("infos",), shards=16)
     nstats = 0; nnospace = 0; nunmount32 = 0; ncreate_nospace = 0
     for jd in judged:
@@ -153,35 +166,12 @@ def run(rep, tier, seed):
             if o.kind == "err" and o.payload.split(" ")[0] == "NotEnoughSpace":
                 nnospace += 1
                 if name in ("create_file", "create_dir", "rename"):
-                    # justified only when the clusters the call needs are not there, or when the destination is the fixed
-                    # root and no run of free slots is long enough for the entry (room computed from the raw root region)
-                    t = o.line.split(" ")
-                    try:
-                        path = bytes.fromhex(t[4] if name == "rename" else t[2]).decode("utf-8")
-                        dh = t[3] if name == "rename" else t[1]
-                    except (ValueError, IndexError):
-                        path = None
-                    if path is not None:
-                        final = path.strip("/").split("/")[-1]
-                        needed = (len(final.encode("utf-16-le")) // 2 + 12) // 13 + 1
-                        root_possible = dh == "0" and "/" not in path.strip("/") and info["bits"] != "32"
-                        need_clusters = 2 if name == "create_dir" else 1
-                        room = int(info.get("rootroom", "-1"))
-                        ncreate_nospace += 1
-                        prev = jd.info.get(oi - 1)
-                        if prev is not None and prev["free"] != info["free"]:
-                            ok = False
-                            rep.violation("[C05] %s failed with NotEnoughSpace but the number of free entries in the raw table went from %s to %s "
-                                          "(a failed call must give back what it allocated)" % (sc.short(o.line, 60), prev["free"], info["free"]),
-                                          {"script": sc.script_prefix(jd, oi)})
-                            break
-                        if int(info["free"]) >= need_clusters and (not root_possible or room >= needed):
-                            ok = False
-                            rep.violation("[C05] %s -> NotEnoughSpace although the raw table has %s free clusters%s" % (
-                                sc.short(o.line, 60), info["free"],
-                                " and the fixed root has a run of %d free slots (the entry needs %d)" % (room, needed) if root_possible else ""),
-                                {"script": sc.script_prefix(jd, oi)})
-                            break
+                    ncreate_nospace += 1
+                    msg = sc.unjustified_nospace(jd, oi, o)
+                    if msg:
+                        ok = False
+                        rep.violation("[C05] " + msg, {"script": sc.script_prefix(jd, oi)})
+                        break
                 if name in ("write", "write_all", "write_pat") and int(info["free"]) != 0:
                     ok = False
                     rep.violation("[C05] %s -> NotEnoughSpace although the raw table still has %s free clusters" % (sc.short(o.line, 60), info["free"]),
